@@ -34,7 +34,7 @@ META = dict(
     rule="one evaluation = one symbolic path through the pairwise VF2 comparisons; non-trivial = at least two graphs share "
          "a class and at least two do not, or m=2",
 )
-WALL = dict(quick=170, thorough=1500)
+WALL = dict(quick=240, thorough=1500)
 MIN_PATHS = dict(quick=200, thorough=2000)
 
 
